@@ -38,6 +38,24 @@ def _b(c):
     raise TypeError('not a condition: %r' % (c,))
 
 
+def raised_by_library(e):
+    """True if the exception left the scenario code, entered the repository's code and was raised there (or below)"""
+    import os
+    from . import install
+    root = os.path.realpath(install.REPO) + os.sep
+    props = os.path.join(os.path.dirname(os.path.dirname(os.path.abspath(__file__))), 'props') + os.sep
+    last = None
+    tb = e.__traceback__
+    while tb is not None:
+        fn = os.path.realpath(tb.tb_frame.f_code.co_filename)
+        if fn.startswith(root):
+            last = 'repo'
+        elif fn.startswith(props):
+            last = 'props'
+        tb = tb.tb_next
+    return last == 'repo'
+
+
 def _isnan(x):
     return isinstance(x, (float, np.floating)) and x != x
 
@@ -218,9 +236,20 @@ class SymEnv:
                 if o.snap is None:
                     o.snap = sn
             n0[0] = len(self.obligations)
+        def guarded():
+            from .stubs import ReplayDiverged
+            try:
+                fn()
+            except (Unsupported, core.Budget, ReplayDiverged):
+                raise
+            except Exception as e:
+                # the library raised on inputs the scenario considers valid: candidate violation of this block
+                if not raised_by_library(e):
+                    raise
+                self.ob('library_raised.%s' % type(e).__name__, False)
         self._in_block = True
         try:
-            self.ctx.isolated(fn, block, on_sub)
+            self.ctx.isolated(guarded, block, on_sub)
         finally:
             self._in_block = False
 
